@@ -111,6 +111,14 @@ fn optval_to_j(v: &Option<Val>) -> J {
         Some(v) => J::Arr(vec![v.to_j()]),
     }
 }
+// replay files written before the custom-mask fills carry no "mask" key: the default null mask
+fn mask_from_j(j: &J) -> Result<u8, String> {
+    match j.get("mask") {
+        None => Ok(0),
+        Some(m) => Ok(m.as_usize()?.min(2) as u8),
+    }
+}
+
 fn optval_from_j(j: &J) -> Result<Option<Val>, String> {
     let a = j.as_arr()?;
     match a.len() {
@@ -380,8 +388,10 @@ pub enum Stage {
     VAbs,
     Shift { n: i32, v: Val },
     VShift { n: i32, fill: Option<Val> },
-    FFill { fill: Option<Val> },
-    BFill { fill: Option<Val> },
+    // mask 0: the default null mask (ffill / bfill); 1: ffill_mask / bfill_mask with a mask that flags
+    // every item; 2: with a mask that flags exactly the non-null items
+    FFill { fill: Option<Val>, mask: u8 },
+    BFill { fill: Option<Val>, mask: u8 },
     Fill { v: Val },
     VClip { lo: Val, hi: Val },
     Rev,
@@ -456,7 +466,9 @@ impl Stage {
             Stage::VShift { n, fill } => {
                 J::obj(vec![k, ("n", J::Int(*n as i64)), ("fill", optval_to_j(fill))])
             },
-            Stage::FFill { fill } | Stage::BFill { fill } => J::obj(vec![k, ("fill", optval_to_j(fill))]),
+            Stage::FFill { fill, mask } | Stage::BFill { fill, mask } => {
+                J::obj(vec![k, ("fill", optval_to_j(fill)), ("mask", J::Int(*mask as i64))])
+            }
             Stage::Fill { v } => J::obj(vec![k, ("v", v.to_j())]),
             Stage::VClip { lo, hi } => J::obj(vec![k, ("lo", lo.to_j()), ("hi", hi.to_j())]),
             Stage::Take { k: kk } | Stage::StepBy { k: kk } | Stage::Loose { m: kk } => {
@@ -485,8 +497,8 @@ impl Stage {
                 n: j.req("n")?.as_i64()? as i32,
                 fill: optval_from_j(j.req("fill")?)?,
             },
-            "ffill" => Stage::FFill { fill: optval_from_j(j.req("fill")?)? },
-            "bfill" => Stage::BFill { fill: optval_from_j(j.req("fill")?)? },
+            "ffill" => Stage::FFill { fill: optval_from_j(j.req("fill")?)?, mask: mask_from_j(j)? },
+            "bfill" => Stage::BFill { fill: optval_from_j(j.req("fill")?)?, mask: mask_from_j(j)? },
             "fill" => Stage::Fill { v: Val::from_j(j.req("v")?)? },
             "vclip" => Stage::VClip {
                 lo: Val::from_j(j.req("lo")?)?,
